@@ -12,10 +12,14 @@ import (
 
 var c10alpha = []byte{0xe2, 0x80, 0xb9, 0xba, 'a', ' ', '\n', '?', 0xc3}
 
+// c10tokens: whole runes and fragments the 9-byte alphabet cannot spell.
+var c10tokens = []string{"\ufffd", startM, endM, "é", "日", "\U0001F600", "a", "\n", "\xef", "\xbf", "\xbd", "\xf0\x9f", "?"}
+
 func init() {
 	register("C10", &monitor{
 		run: runC10,
 		rule: "all byte strings over {E2,80,B9,BA,'a',' ',LF,'?',C3} up to the length bound (exhaustive) x every start offset x both line-split settings for the internal routine, " +
+			"every sequence of up to 4 (thorough 5) tokens over {U+FFFD, both markers, 2-, 3- and 4-byte runes, fragments of those, 'a', LF, '?'}, " +
 			"plus EscapeMarkers, EscapeBytes and ManualBuffer (safe and unsafe mode, every 2-way split of the payload; 3-way in the thorough tier) on the same strings, and random longer strings; " +
 			"non-trivial = the string contains a marker, a line feed, or ends in a truncated multi-byte sequence; distinct = distinct strings",
 	})
@@ -272,9 +276,44 @@ func runC10(c *Ctx) {
 			w.Sample(map[string]string{"bytes_q": q(string(b)), "EscapeMarkers_q": q(string(redact.EscapeMarkers(b))), "EscapeBytes_q": q(string(redact.EscapeBytes(b)))})
 		}
 	})
+	// whole-rune tokens (the replacement character itself, 2- to 4-byte runes, fragments of U+FFFD):
+	// every sequence of up to 4 (thorough: 5) tokens
+	tl := int(c.pick(4, 5))
+	tk := int64(len(c10tokens))
+	var ttotal int64
+	tp := int64(1)
+	for l := 0; l <= tl; l++ {
+		ttotal += tp
+		tp *= tk
+	}
+	c.ParallelFor(ttotal, func(w *Worker, i int64) {
+		var b []byte
+		j, p := i, int64(1)
+		l := 0
+		for j >= p {
+			j -= p
+			p *= tk
+			l++
+		}
+		for n := 0; n < l; n++ {
+			b = append(b, c10tokens[j%tk]...)
+			j /= tk
+		}
+		c10check(w, b, false)
+		w.Count("token_strings", 1)
+	})
 	nRand := c.pick(60000, 3000000)
 	c.ParallelFor(nRand, func(w *Worker, i int64) {
 		r := newRng(c.Seed, 0xc10, uint64(i))
+		if r.Chance(1, 4) {
+			var b []byte
+			for j, n := 0, 1+r.Intn(12); j < n; j++ {
+				b = append(b, c10tokens[r.Intn(len(c10tokens))]...)
+			}
+			c10check(w, b, false)
+			w.Count("random_token_strings", 1)
+			return
+		}
 		n := maxLen + 1 + r.Intn(40)
 		if r.Chance(1, 50) {
 			n = 200 + r.Intn(4000)
